@@ -10,80 +10,15 @@ def keep(l):
     return l.startswith(("ev w ", "exchclose", "pub ", "ev save"))
 
 
-def mon_pubrel_order(tr, sc):
-    """PUBRELs go out in the order of the PUBRECs: judged on the wire alone (no persistence events needed, so it also serves
-    VolatileSession): within the retransmission after a CONNECT no identifier is released twice, only identifiers whose
-    PUBREC was sent by the broker are released, and their relative order is that of the PUBRECs"""
-    out = []
-    w = SC.Wire()
-    rec_order = []          # identifiers in the order their PUBREC was fed
-    released = []           # identifiers whose PUBREL was on the wire completely, no PUBCOMP fed since
-    inbuf = b""
-    for i, (op, lines) in enumerate(tr):
-        f = op.split()
-        if f and f[0] in ("feed", "dial"):
-            for a in (f[1:] if f[0] == "feed" else f[2:3]):
-                if a in ("tmo", "err", "eof", "block", "-"):
-                    continue
-                try:
-                    inbuf += SC.unhex(a)
-                except Exception:
-                    continue
-                # acknowledgements are found wherever they start in what the broker sent (the handshake reply precedes them)
-                fr, k = [], 0
-                while k + 4 <= len(inbuf):
-                    if inbuf[k] in (0x50, 0x70) and inbuf[k + 1] == 2:
-                        fr.append(inbuf[k:k + 4])
-                        k += 4
-                    else:
-                        k += 1
-                inbuf = inbuf[k:] if k < len(inbuf) and inbuf[-1:] != b"" and len(inbuf) - k < 4 else b""
-                for pk in fr:
-                    if pk[0] == 0x50 and len(pk) == 4:
-                        pid = (pk[2] << 8) | pk[3]
-                        if pid not in rec_order:
-                            rec_order.append(pid)
-                    elif pk[0] == 0x70 and len(pk) == 4:
-                        pid = (pk[2] << 8) | pk[3]
-                        if pid in rec_order:
-                            rec_order.remove(pid)
-                        if pid in released:
-                            released.remove(pid)
-        if f and f[0] in ("init", "vinit"):
-            rec_order, released = [], []
-        if f and f[0] == "damage":
-            released = []       # records may be gone: nothing is concluded about what must be retransmitted
-        for l in lines:
-            p = l.split()
-            if l.startswith("ev w ") and p[3].startswith("10"):
-                burst = [d for d in w.add(i, p[2], SC.unhex(p[3])) if d["name"] == "pubrel"]
-                ids = [d["id"] for d in burst]
-                raw = SC.unhex(p[3])
-                trailing = len(raw) > 2 + raw[1] if len(raw) > 1 and raw[1] < 0x80 else True
-                established = any(x.split()[:2] in (["rs", "parked"], ["rs", "msg"], ["rs", "big"]) for x in lines[lines.index(l):])
-                if not established:
-                    continue        # the handshake failed: nothing is retransmitted on this connection
-                # (an identifier may show twice: the PUBREL whose write failed is flushed again after the retransmission)
-                ids = [x for j, x in enumerate(ids) if x not in ids[:j]]
-                known = [x for x in ids if x in rec_order]
-                if known != [x for x in rec_order if x in known]:
-                    out.append(("pubrel:order", "PUBRELs retransmitted as %s, the PUBRECs came as %s" % (["%04x" % x for x in known], ["%04x" % x for x in rec_order])))
-            elif l.startswith("ev w "):
-                for d in w.add(i, p[2], SC.unhex(p[3])):
-                    if d["name"] == "pubrel" and d["id"] not in released:
-                        released.append(d["id"])
-    return out
-
-
 def run(ctx):
     want = ("outbound:order", "outbound:dup-on-first", "outbound:no-dup-on-resend", "outbound:publish-not-stored")
-    mon = lambda tr, sc: SC.mon_sanity(tr) + [h for h in SC.mon_outbound(tr) if h[0] in want] + mon_pubrel_order(tr, sc)
+    mon = lambda tr, sc: SC.mon_sanity(tr) + [h for h in SC.mon_outbound(tr) if h[0] in want]
     v, stats, hist, samples, nd = SC.run_property(ctx, MODULE, PROFILE, 250, 4000, [mon], keep, length=(10, 36))
     # the same histories on VolatileSession (the package's own in-memory store): no persistence events, the wire must be the same
     vprofile = dict(PROFILE, fault=0, restart=0, damage=0, wrap=0, blocked=0)
     vkeep = lambda l: l.startswith(("ev w ", "rs ", "pub ", "exch", "ret ", "blocked"))
     vtransform = lambda sc: [("v" + o if o.startswith("init ") else o) for o in sc if o.split()[0] not in ("sfail", "dfail", "lfail", "store", "damage")]
-    vmon = lambda tr, sc: SC.mon_sanity(tr) + mon_pubrel_order(tr, sc)
+    vmon = lambda tr, sc: SC.mon_sanity(tr)
     _, vstats, _, _, _ = SC.run_property(ctx, MODULE, vprofile, 120, 2000, [vmon], vkeep, length=(10, 36), verdict=v, transform=vtransform, corpus=False)
     stats["volatile_scripts"] = vstats["scripts"]
     return SC.finish(ctx, v, stats, hist, samples, nd,
